@@ -77,7 +77,7 @@ def tie(ctx, cases=None):
         if os.path.exists(w):
             # the step-level replay of the known defect: the engine must agree with the deadlock (TAG known-F18-…)
             ts.append(ctx.tie("oneshotb-witness-" + os.path.basename(w)[:-5], _cmd(h, "run", w, "--atomics"), [drv]))
-    n = cases or (2000 if ctx.quick else 40000)
+    n = cases or (2000 if ctx.quick else 10000)
     tier = [] if ctx.quick else ["--tier", "thorough"]
     ts.append(ctx.tie("oneshotb-atomic-steps-conc",
                       _cmd(*([h, "gen", "--seed", str(ctx.seed), "--cases", str(n), "--mode", "conc", "--flavours", "oneshot", "--atomics"] + tier)),
